@@ -243,8 +243,13 @@ pub fn replay(trace: &Trace, ctx: &mut RunCtx) -> (Outcome, Vec<Step>) {
     if trace.cfg.has(O_TORN) {
         if let Outcome::Fail(f, at) = &out {
             if let Some(i) = executed.iter().position(|s| matches!(s.panic_at, Some(j) if j != crate::op::CONTROL)) {
-                let neutral = match trace.cfg.world {
-                    WorldKind::Key | WorldKind::Seg => Op::Tick { dt: 0 },
+                // the neutral operation looks at the same key as the faulted one, so that the
+                // observation window of the control run is the window of the faulted run
+                let neutral = match (&executed[i].op, trace.cfg.world) {
+                    (Op::KIns { k, .. }, _) | (Op::KGet { k, .. }, _) | (Op::KLess { k, .. }, _) | (Op::KLeq { k, .. }, _) | (Op::KLeqBy { k, .. }, _) => Op::KGet { k: *k, pexp: i32::MAX },
+                    (Op::OIns { k }, _) | (Op::ODel { k }, _) | (Op::OGet { k }, _) | (Op::OHold { k }, _) | (Op::ONext { k }, _) | (Op::OPrev { k }, _) => Op::OGet { k: *k },
+                    (Op::OFirst { p }, _) | (Op::OHRead { p }, _) | (Op::OHWrite { p }, _) | (Op::OHDel { p }, _) => Op::OGet { k: *p },
+                    (_, WorldKind::Key) | (_, WorldKind::Seg) => Op::Tick { dt: 0 },
                     _ => Op::OEmpty,
                 };
                 let mut c1 = Trace { cfg: trace.cfg.clone(), steps: executed.clone() };
